@@ -115,10 +115,16 @@ def explore(tier, seed, model_ok=True, focus=False):
     # dex/farm as ONE closed model (Model/FarmFull.v): the boosted payout is computed by the model, the farm's boosted pool is
     # linked to the weekly pools, no negative counter on any user operation
     from props import farm_full_common as ffc
-    return ffc.merge_exploration(ex, ffc.explore_farm_full("C05", tier, seed, ffc.monitors_for_c05, ffc.nontrivial_all, ffc.RULE, model_ok, focus, scale=0.5))
+    ex = ffc.merge_exploration(ex, ffc.explore_farm_full("C05", tier, seed, ffc.monitors_for_c05, ffc.nontrivial_all, ffc.RULE, model_ok, focus, scale=0.5))
+    # farm-staking as ONE closed model (Model/StakingFull.v = StakingPos x BoostedHosts)
+    from props import staking_full_common as sfc
+    return sfc.merge_exploration(ex, sfc.explore_staking_full("C05", tier, seed, sfc.monitors_for_c05, sfc.nontrivial_all, sfc.RULE, model_ok, focus, scale=0.5))
 
 
 def replay(data):
+    if data.get("replay", {}).get("system") == "staking-full":
+        from props import staking_full_common as sfc
+        return sfc.replay_staking_full(data, sfc.monitors_for_c05)
     if data.get("replay", {}).get("system") == "farm-full":
         from props import farm_full_common as ffc
         return ffc.replay_farm_full(data, ffc.monitors_for_c05)
